@@ -51,6 +51,9 @@ def _choices_threading_rule(ctx):
                 if passed is None:
                     idx = takes[c.func.attr].index("choices") - 1  # minus self
                     passed = c.args[idx] if 0 <= idx < len(c.args) else None
+                if passed is not None:
+                    from ..astutil import subst_locals as _sl9
+                    passed = _sl9(passed, fi.node, depth=3, keep={"choices"})
                 ok = passed is not None and any((isinstance(n_, ast.Name) and n_.id == "choices") or (isinstance(n_, ast.Attribute) and n_.attr == "choices") for n_ in ast.walk(passed))
                 r.check(ok, f"{fi.qualname} -> {c.func.attr}(choices=)", "the mapping received is the mapping handed on", fi.loc(c),
                         why_fail=f"choices={norm(passed) if passed is not None else 'omitted'}")
